@@ -1173,6 +1173,14 @@ def nontrivial(case, obs) -> bool:
     return False
 
 
+def plain_operand(case, step) -> bool:
+    o = case["ops"][step]
+    if o["op"] in ("eq", "eqrev") and o["other"]["content"] is not None:
+        ot = o["other"]
+        return is_valid_for(ot["kind"], ot["rows"], ot["cols"], ot["content"])
+    return True
+
+
 def add_violations(ctx: Ctx, viol, do_shrink=True):
     """One Violation per distinct signature (shrunk); further cases with the same signature are only counted."""
     by_sig = {}
@@ -1184,7 +1192,9 @@ def add_violations(ctx: Ctx, viol, do_shrink=True):
     n_shrunk = 0
     n_known = [0, 0]
     for key, lst in sorted(by_sig.items()):
-        v, case, obs, step, cl = min(lst, key=lambda t: t[3])
+        # the representative of a signature: prefer a case whose comparison / assignment operand is itself a legal
+        # content (the plainest witness), then the shortest history
+        v, case, obs, step, cl = min(lst, key=lambda t: (not plain_operand(t[1], t[3]), t[3]))
         known = any(core.finding_matches(e, v) for e in findings)
         if do_shrink and not known and n_shrunk < 6 and step > 0:
             n_shrunk += 1
